@@ -47,7 +47,7 @@ def run(ctx):
 
     # V: recorded Amsterdam blocks validated by the trace specification with the BAL observer
     tp = os.path.join(ctx.scratch, "trace.ndjson")
-    s, _ = ctx.drive(drv, ["-mode", "record", "-trace", tp, "-n", ctx.pick(40, 500), "-steps", ctx.pick(100, 200),
+    s, _ = ctx.drive(drv, ["-mode", "record", "-trace", tp, "-n", ctx.pick(40, 240), "-steps", ctx.pick(100, 200),
                            "-na", 3, "-ns", 2], name="c15-record", timeout=ctx.pick(1800, 7200))
     ok, consumed, total, r = ctx.validate("state/StateDBTrace", tp, cfg="state/StateDBTraceBAL", ntraces=s["traces"],
                                           timeout=ctx.pick(1800, 7200))
